@@ -324,8 +324,12 @@ func writeEvidence(spec *PropSpec, tier string, seed int, prog *Program, results
 		"violations":  nviol,
 	}
 	b, _ := json.MarshalIndent(ev, "", " ")
-	os.MkdirAll(filepath.Join(verifDir, "evidence"), 0o755)
-	os.WriteFile(filepath.Join(verifDir, "evidence", spec.ID+".json"), b, 0o644)
+	evDir := filepath.Join(verifDir, "evidence")
+	if d := os.Getenv("VERIF_EVIDENCE_DIR"); d != "" {
+		evDir = d // used only by the mutation-testing helper (tools/mut.sh)
+	}
+	os.MkdirAll(evDir, 0o755)
+	os.WriteFile(filepath.Join(evDir, spec.ID+".json"), b, 0o644)
 }
 
 // sigMatch: a known-finding signature is either the exact violation
